@@ -48,11 +48,12 @@ Proof.
   - apply load_remote_log; auto.
 Qed.
 
-Lemma load_queries_log w log : no_writes log = true -> no_writes (fst (load_queries w log)) = true.
+Lemma load_queries_log w st log : no_writes log = true -> no_writes (fst (load_queries w st log)) = true.
 Proof.
   intro H. unfold load_queries. pose proof (load_and_parse_log (w_query_files w) log H) as HL.
   destruct (load_and_parse (w_query_files w) log) as [l [x|]]; simpl in *; auto.
-  destruct (relevant_op_errors w); simpl; auto.
+  assert (no_writes (l ++ [EValidateOps st]) = true) as HV by (rewrite no_writes_app, HL; reflexivity).
+  destruct (relevant_op_errors_at w st); simpl; auto.
 Qed.
 
 (* generate: a failure is the duplicate-name check, which precedes mkdir *)
@@ -72,11 +73,11 @@ Proof.
   pose proof (load_schema_log (c_base c) w [] eq_refl) as HS.
   destruct (load_schema (c_base c) w []) as [log [y|]]; simpl in *; auto.
   destruct (load_plugins w); simpl; auto.
-  assert (no_writes (fst (if String.eqb (c_queries_path c) "" then (log, None) else load_queries w log)) = true) as HQ.
+  assert (no_writes (fst (if String.eqb (c_queries_path c) "" then (log, None) else load_queries w stage_for_validation log)) = true) as HQ.
   { destruct (String.eqb (c_queries_path c) ""); simpl; auto. apply load_queries_log; auto. }
-  destruct (if String.eqb (c_queries_path c) "" then (log, None) else load_queries w log) as [log2 [y|]];
+  destruct (if String.eqb (c_queries_path c) "" then (log, None) else load_queries w stage_for_validation log) as [log2 [y|]];
     simpl in *; auto.
-  assert (no_writes (log2 ++ [EStdout]) = true) as H3 by (rewrite no_writes_app, HQ; reflexivity).
+  assert (no_writes (log2 ++ [EStdout; EGenerate stage_for_generation]) = true) as H3 by (rewrite no_writes_app, HQ; reflexivity).
   destruct (add_operations _ []) as [results| |]; simpl; auto; try discriminate.
   intro H. rewrite (generate_failed _ _ _ _ _ _ _ H). exact H3.
 Qed.
@@ -114,11 +115,11 @@ Proof.
     pose proof (load_schema_log (c_base c) w [] eq_refl) as HS.
     destruct (load_schema (c_base c) w []) as [log [y|]]; simpl in *; try congruence.
     destruct (load_plugins w); simpl; try congruence.
-    assert (no_writes (fst (if String.eqb (c_queries_path c) "" then (log, None) else load_queries w log)) = true) as HQ.
+    assert (no_writes (fst (if String.eqb (c_queries_path c) "" then (log, None) else load_queries w stage_for_validation log)) = true) as HQ.
     { destruct (String.eqb (c_queries_path c) ""); simpl; auto. apply load_queries_log; auto. }
-    destruct (if String.eqb (c_queries_path c) "" then (log, None) else load_queries w log) as [log2 [y|]];
+    destruct (if String.eqb (c_queries_path c) "" then (log, None) else load_queries w stage_for_validation log) as [log2 [y|]];
       simpl in *; try congruence.
-    assert (no_writes (log2 ++ [EStdout]) = true) as H3 by (rewrite no_writes_app, HQ; reflexivity).
+    assert (no_writes (log2 ++ [EStdout; EGenerate stage_for_generation]) = true) as H3 by (rewrite no_writes_app, HQ; reflexivity).
     destruct (add_operations _ []) as [results| |]; simpl; try congruence.
     intros _ E. exact (generate_not_ill _ _ _ _ _ E).
 Qed.
@@ -128,7 +129,7 @@ Definition with_schema_errors (w : world) (errs : list string) : world :=
   {| w_schema_files := w_schema_files w; w_schema_build := w_schema_build w; w_url := w_url w;
      w_resp := w_resp w; w_deep := w_deep w;
      w_schema_errors := errs; w_plugin_err := w_plugin_err w; w_query_files := w_query_files w;
-     w_op_errors := w_op_errors w; w_ops := w_ops w; w_fragments := w_fragments w;
+     w_op_errors := w_op_errors w; w_op_errors_raw := w_op_errors_raw w; w_ops := w_ops w; w_fragments := w_fragments w;
      w_query_type := w_query_type w; w_mutation_type := w_mutation_type w |}.
 
 Theorem run_client_ignores_schema_validity e cfg w errs :
@@ -243,6 +244,7 @@ Proof.
     + unfold load_queries, load_and_parse in H.
       destruct (load_files (w_query_files w) _) as [lq [y|]] eqn:LF; simpl in H; [discriminate|].
       destruct (w_query_files w) eqn:QF; simpl in H; [discriminate|]. rewrite <- QF in *.
+      change (relevant_op_errors_at w stage_for_validation) with (relevant_op_errors w) in H.
       destruct (relevant_op_errors w) eqn:RE; simpl in H; [|discriminate].
       destruct (add_operations (w_ops w) []) eqn:AO; simpl in H; try discriminate.
       unfold generate in H. destruct (has_dup _) eqn:HD; simpl in H; [discriminate|].
@@ -262,6 +264,7 @@ Proof.
     + unfold load_queries, load_and_parse in H.
       destruct (load_files (w_query_files w) _) as [lq [y|]] eqn:LF; simpl in H; [discriminate|].
       destruct (w_query_files w) eqn:QF; simpl in H; [discriminate|]. rewrite <- QF in *.
+      change (relevant_op_errors_at w stage_for_validation) with (relevant_op_errors w) in H.
       destruct (relevant_op_errors w) eqn:RE; simpl in H; [|discriminate].
       destruct (add_operations (w_ops w) []) eqn:AO; simpl in H; try discriminate.
       unfold generate in H. destruct (has_dup _) eqn:HD; simpl in H; [discriminate|].
@@ -328,12 +331,12 @@ Proof.
   destruct (String.eqb (c_queries_path c) "") eqn:QP; simpl.
   - unfold generate. destruct (has_dup _); simpl; [|discriminate].
     intro H. inversion H; reflexivity.
-  - destruct (load_queries w log) as [log2 [y|]] eqn:LQ; simpl.
+  - destruct (load_queries w stage_for_validation log) as [log2 [y|]] eqn:LQ; simpl.
     + intro H. inversion H; subst. revert LQ. unfold load_queries.
       destruct (load_and_parse (w_query_files w) log) as [l [z|]] eqn:LP.
       * intro H1. inversion H1; subst. eapply load_and_parse_typed; eauto.
         destruct (w_query_files w); [discriminate | discriminate].
-      * destruct (relevant_op_errors w); [discriminate|]. intro H1. inversion H1; reflexivity.
+      * destruct (relevant_op_errors_at w stage_for_validation); [discriminate|]. intro H1. inversion H1; reflexivity.
     + destruct (add_operations (w_ops w) []) eqn:AO; simpl.
       * unfold generate. destruct (has_dup _); simpl; [|discriminate]. intro H. inversion H; reflexivity.
       * intro H. inversion H; subst. eapply add_operations_typed; eauto.
@@ -379,11 +382,12 @@ Proof.
   destruct (load_files fs log) as [l [x|]]; simpl in *; auto. destruct fs; simpl; auto.
 Qed.
 
-Lemma load_queries_no_http w log : no_http log = true -> no_http (fst (load_queries w log)) = true.
+Lemma load_queries_no_http w st log : no_http log = true -> no_http (fst (load_queries w st log)) = true.
 Proof.
   intro H. unfold load_queries. pose proof (load_and_parse_no_http (w_query_files w) log H) as HL.
   destruct (load_and_parse (w_query_files w) log) as [l [x|]]; simpl in *; auto.
-  destruct (relevant_op_errors w); simpl; auto.
+  assert (no_http (l ++ [EValidateOps st]) = true) as HV by (rewrite no_http_app, HL; reflexivity).
+  destruct (relevant_op_errors_at w st); simpl; auto.
 Qed.
 
 Lemma generate_no_http e c w results log : no_http log = true ->
@@ -413,11 +417,11 @@ Proof.
   pose proof (load_schema_local_no_http (c_base c) w [] NE eq_refl) as HS.
   destruct (load_schema (c_base c) w []) as [log [y|]]; simpl in *; auto.
   destruct (load_plugins w); simpl; auto.
-  assert (no_http (fst (if String.eqb (c_queries_path c) "" then (log, None) else load_queries w log)) = true) as HQ.
+  assert (no_http (fst (if String.eqb (c_queries_path c) "" then (log, None) else load_queries w stage_for_validation log)) = true) as HQ.
   { destruct (String.eqb (c_queries_path c) ""); simpl; auto. apply load_queries_no_http; auto. }
-  destruct (if String.eqb (c_queries_path c) "" then (log, None) else load_queries w log) as [log2 [y|]];
+  destruct (if String.eqb (c_queries_path c) "" then (log, None) else load_queries w stage_for_validation log) as [log2 [y|]];
     simpl in *; auto.
-  assert (no_http (log2 ++ [EStdout]) = true) as H3 by (rewrite no_http_app, HQ; reflexivity).
+  assert (no_http (log2 ++ [EStdout; EGenerate stage_for_generation]) = true) as H3 by (rewrite no_http_app, HQ; reflexivity).
   destruct (add_operations _ []) as [results| |]; simpl; auto.
   apply generate_no_http; auto.
 Qed.
@@ -442,7 +446,7 @@ Proof.
   destruct (load_remote (c_base c) w []) as [log [y|]] eqn:LR; simpl.
   - intro H. inversion H; subst. eapply load_remote_typed; eauto.
   - destruct (load_plugins w); simpl; [discriminate|].
-    destruct (if String.eqb (c_queries_path c) "" then (log, None) else load_queries w log) as [log2 [y|]];
+    destruct (if String.eqb (c_queries_path c) "" then (log, None) else load_queries w stage_for_validation log) as [log2 [y|]];
       simpl; [discriminate|].
     destruct (add_operations _ []) as [results| |]; simpl; try discriminate.
     intro H. unfold generate in H. destruct (has_dup _); simpl in H; discriminate.
@@ -457,3 +461,93 @@ Proof.
   - intro H. inversion H; subst. eapply load_remote_typed; eauto.
   - destruct (load_plugins w); simpl; discriminate.
 Qed.
+
+(* ---------- the schema the operations are validated against is the schema the package is generated from ---------- *)
+Definition stage_of (f : effect) : option sstage :=
+  match f with EValidateOps s => Some s | EGenerate s => Some s | _ => None end.
+Definition uses_processed (log : list effect) : bool :=
+  forallb (fun f => match stage_of f with Some s => is_processed s | None => true end) log.
+
+Lemma uses_processed_app l1 l2 : uses_processed (l1 ++ l2) = uses_processed l1 && uses_processed l2.
+Proof. unfold uses_processed. apply forallb_app. Qed.
+
+Lemma load_files_up fs : forall log, uses_processed log = true -> uses_processed (fst (load_files fs log)) = true.
+Proof.
+  induction fs as [|f fs IH]; simpl; intros log H; auto.
+  assert (uses_processed (log ++ [ERead (gf_path f)]) = true) as H1 by (rewrite uses_processed_app, H; reflexivity).
+  destruct (gf_ok f); simpl; auto.
+Qed.
+Lemma load_and_parse_up fs log : uses_processed log = true -> uses_processed (fst (load_and_parse fs log)) = true.
+Proof.
+  intro H. unfold load_and_parse. pose proof (load_files_up fs log H) as HL.
+  destruct (load_files fs log) as [l [x|]]; simpl in *; auto. destruct fs; simpl; auto.
+Qed.
+Lemma load_schema_up b w log : uses_processed log = true -> uses_processed (fst (load_schema b w log)) = true.
+Proof.
+  intro H. unfold load_schema. destruct (negb _).
+  - pose proof (load_and_parse_up (w_schema_files w) log H) as HL.
+    destruct (load_and_parse (w_schema_files w) log) as [l [x|]]; simpl in *; auto.
+    destruct (w_schema_build w); simpl; auto.
+  - unfold load_remote.
+    assert (uses_processed (match w_url w with Introspect.UOk => log ++ [EHttp (s_url b)] | _ => log end) = true) as HL.
+    { destruct (w_url w); auto. rewrite uses_processed_app, H. reflexivity. }
+    destruct (Introspect.schema_from_url _ _ _); simpl; exact HL.
+Qed.
+Lemma load_queries_up w log : uses_processed log = true ->
+  uses_processed (fst (load_queries w stage_for_validation log)) = true.
+Proof.
+  intro H. unfold load_queries. pose proof (load_and_parse_up (w_query_files w) log H) as HL.
+  destruct (load_and_parse (w_query_files w) log) as [l [x|]]; simpl in *; auto.
+  assert (uses_processed (l ++ [EValidateOps stage_for_validation]) = true) as HV
+    by (rewrite uses_processed_app, HL; reflexivity).
+  destruct (relevant_op_errors_at w stage_for_validation); simpl; auto.
+Qed.
+Lemma generate_up e c w results log : uses_processed log = true ->
+  uses_processed (fst (generate e c w results log)) = true.
+Proof.
+  intro H. unfold generate. destruct (has_dup _); simpl; auto.
+  rewrite uses_processed_app. apply andb_true_iff. split.
+  - destruct (p_exists _ _); auto. rewrite uses_processed_app, H. reflexivity.
+  - unfold uses_processed. rewrite forallb_forall. intros f Hf. apply in_map_iff in Hf as (p & <- & _). reflexivity.
+Qed.
+
+Theorem run_client_uses_processed_schema e cfg w : uses_processed (fst (run_client e cfg w)) = true.
+Proof.
+  unfold run_client.
+  destruct (get_client_settings e cfg) as [c| |]; simpl; auto.
+  pose proof (load_schema_up (c_base c) w [] eq_refl) as HS.
+  destruct (load_schema (c_base c) w []) as [log [y|]]; simpl in *; auto.
+  destruct (load_plugins w); simpl; auto.
+  assert (uses_processed (fst (if String.eqb (c_queries_path c) "" then (log, None)
+                               else load_queries w stage_for_validation log)) = true) as HQ.
+  { destruct (String.eqb (c_queries_path c) ""); simpl; auto. apply load_queries_up; auto. }
+  destruct (if String.eqb (c_queries_path c) "" then (log, None) else load_queries w stage_for_validation log)
+    as [log2 [y|]]; simpl in *; auto.
+  assert (uses_processed (log2 ++ [EStdout; EGenerate stage_for_generation]) = true) as H3
+    by (rewrite uses_processed_app, HQ; reflexivity).
+  destruct (add_operations _ []) as [results| |]; simpl; auto.
+  apply generate_up; auto.
+Qed.
+
+(* corollary in the words of the property: whatever stage validates and whatever stage generates, they coincide *)
+Theorem validation_schema_is_generation_schema e cfg w s1 s2 :
+  In (EValidateOps s1) (fst (run_client e cfg w)) -> In (EGenerate s2) (fst (run_client e cfg w)) ->
+  s1 = s2 /\ s1 = SProcessed.
+Proof.
+  intros H1 H2. pose proof (run_client_uses_processed_schema e cfg w) as HU.
+  unfold uses_processed in HU. rewrite forallb_forall in HU.
+  pose proof (HU _ H1) as A1. pose proof (HU _ H2) as A2. simpl in A1, A2.
+  destruct s1, s2; try discriminate; auto.
+Qed.
+
+(* the verdict against the schema BEFORE process_schema never influences the run *)
+Definition with_raw_op_errors (w : world) (errs : list (string * string)) : world :=
+  {| w_schema_files := w_schema_files w; w_schema_build := w_schema_build w; w_url := w_url w;
+     w_resp := w_resp w; w_deep := w_deep w; w_schema_errors := w_schema_errors w;
+     w_plugin_err := w_plugin_err w; w_query_files := w_query_files w; w_op_errors := w_op_errors w;
+     w_op_errors_raw := errs; w_ops := w_ops w; w_fragments := w_fragments w;
+     w_query_type := w_query_type w; w_mutation_type := w_mutation_type w |}.
+
+Theorem run_client_ignores_raw_verdict e cfg w errs :
+  run_client e cfg (with_raw_op_errors w errs) = run_client e cfg w.
+Proof. destruct w. reflexivity. Qed.
